@@ -80,6 +80,9 @@ def build_inputs(case):
     if case["flavour"] == "list":
         return b, p, [list(r) for r in b], list(p)
     rect = len({len(r) for r in b}) <= 1
+    if case["flavour"] == "f32" and rect and all(float(np.float32(v)) == v for r in b for v in r) and all(float(np.float32(v)) == v for v in p):
+        # single-precision arrays holding exactly the same numbers (data read from a float32 file, a GPU pipeline, ...)
+        return b, p, np.array(b, dtype=np.float32).reshape(len(b), len(b[0]) if b else 0), np.array(p, dtype=np.float32)
     if rect:
         B = np.array(b, dtype=np.float64).reshape(len(b), len(b[0]) if b else 0)
     elif case.get("ragged") == "obj":
@@ -560,6 +563,21 @@ def random_grid_case(rng, k, kmax):
     return mk_case([[t[0] for t in ps], [t[1] for t in ps]], [t[2] for t in ps], flav(k), "grid:" + "+".join(fam))
 
 
+def random_f32_case(rng, k):
+    dims = rng.randint(1, 3)
+    ps = [grid_param(rng, "dyadic_multiple", 60) for _ in range(dims)]
+    return mk_case([[t[0] for t in ps], [t[1] for t in ps]], [t[2] for t in ps], "f32", "grid:float32-arrays")
+
+
+def big_space_cases(rng):
+    """Well-formed specifications whose number of grid points does not fit a machine integer."""
+    out = []
+    for dims, npts in ((10, 101), (64, 2), (13, 33), (21, 9), (9, 101)):
+        lo = [float(rng.randint(-3, 3)) for _ in range(dims)]
+        out.append(mk_case([lo, [x + (npts - 1) * 0.5 for x in lo]], [0.5] * dims, flav(dims), f"grid:big-space-{npts}^{dims}"))
+    return out
+
+
 def generate(chk):
     rng = chk.rng
     quick = chk.tier == "quick"
@@ -616,6 +634,9 @@ def generate(chk):
         cases.append(random_grid_case(rng, k, 2000))
     for k in range(10 if quick else 120):
         cases.append(random_grid_case(rng, k, 100000))
+    for k in range(60 if quick else 600):
+        cases.append(random_f32_case(rng, k))
+    cases += big_space_cases(rng)
     return cases, nsig
 
 
